@@ -99,14 +99,18 @@ def Accepts_binary_binned_auprc (input target : Shp) (num_tasks : Int) : Bool :=
     | _ => false)
 
 def Accepts_binary_auroc (input target : Shp) (num_tasks : Int) (weight : Option Shp) : Bool :=
-  Accepts_tasks_nd input target num_tasks && weightOk input weight
+  Accepts_tasks_2d input target num_tasks && weightOk input weight
 
 def Accepts_ne (input target : Shp) (num_tasks : Int) (weight : Option Shp) : Bool :=
-  Accepts_tasks_2d input target num_tasks && weightOk input weight
+  Accepts_tasks_strict input target num_tasks && weightOk input weight
 
 /-- the helper ignores `weight` -/
 def Accepts_weighted_calibration (input target : Shp) (num_tasks : Int) : Bool :=
-  Accepts_tasks_2d input target num_tasks
+  Accepts_tasks_strict input target num_tasks
+
+/-- `indexes`, when given, has the input's shape -/
+def Accepts_retrieval (input target : Shp) (num_tasks : Int) (indexes : Option Shp) : Bool :=
+  Accepts_tasks_strict input target num_tasks && weightOk input indexes
 
 def Accepts_click_through_rate (input : Shp) (weights : Option Shp) (num_tasks : Int) : Bool :=
   weightOk input weights &&
@@ -138,11 +142,11 @@ def Accepts_perplexity (input target : Shp) : Bool :=
 
 def Accepts_rank1 (input : Shp) : Bool := ndim input == 1
 
-/-- after `unsqueeze(0)` of 1-D arguments: equal non-empty shapes with n_tasks rows -/
+/-- after `unsqueeze(0)` of 1-D arguments: equal non-empty shapes of rank ≤ 2 with n_tasks rows -/
 def Accepts_auc (x y : Shp) (n_tasks : Int) : Bool :=
   let x' := if ndim x == 1 then 1 :: x else x
   let y' := if ndim y == 1 then 1 :: y else y
-  x' == y' && numel x != 0 && numel y != 0 &&
+  x' == y' && decide (ndim x' ≤ 2) && numel x != 0 && numel y != 0 &&
   (match x' with
    | r :: _ => Int.ofNat r == n_tasks
    | [] => false)
